@@ -31,16 +31,16 @@ int main(void) {
 #ifdef __CPROVER__
   uint64_t Hloc[256]; Hh = Hloc;
 #endif
-  /* property 0: [unsigned u, signed i, real r, string s0 (2 bytes)]; property 1 (NP == 2): [string s1 (1 byte), real r1]; names 'p' and (SAME ? 'p' : 'q') */
+  /* property 0: [unsigned u, signed i, real r, string s0 (2 bytes)]; property 1 (NP == 2): [string s1 (2 bytes), real r1]; names 'p' and (SAME ? 'p' : 'q') */
   uint64_t u = nd_u64(); int64_t si = (int64_t)nd_u64(); ASSUME(si != INT64_MIN); uint64_t rbits = nd_u64(), r1bits = nd_u64();
-  uint8_t s0[2] = {nd_u8(), nd_u8()}, s1[1] = {nd_u8()};
+  uint8_t s0[2] = {nd_u8(), nd_u8()}, s1[2] = {nd_u8(), nd_u8()};      /* equal lengths: the writer's string table may merge only byte-identical values, whatever the bytes (NULs included) */
   uint8_t n0[2] = {'p', 0}, n1[2] = {SAME ? 'p' : 'q', 0};
   PVal v[6]; memset(v, 0, sizeof(v));
   v[0].f0 = 0; PV_U64(&v[0]) = u; v[0].f2 = &v[1];
   v[1].f0 = 1; PV_U64(&v[1]) = (uint64_t)si; v[1].f2 = &v[2];
   v[2].f0 = 2; PV_U64(&v[2]) = rbits; v[2].f2 = &v[3];
   v[3].f0 = 3; PV_U64(&v[3]) = 2; PV_BYTES(&v[3]) = s0; v[3].f2 = 0;
-  v[4].f0 = 3; PV_U64(&v[4]) = 1; PV_BYTES(&v[4]) = s1; v[4].f2 = &v[5];
+  v[4].f0 = 3; PV_U64(&v[4]) = 2; PV_BYTES(&v[4]) = s1; v[4].f2 = &v[5];
   v[5].f0 = 2; PV_U64(&v[5]) = r1bits; v[5].f2 = 0;
   Prop p[2]; memset(p, 0, sizeof(p)); p[0].f0 = n0; p[0].f1 = &v[0]; p[0].f2 = NP == 2 ? &p[1] : 0; p[1].f0 = n1; p[1].f1 = &v[4]; p[1].f2 = 0;
   uint8_t* buf = malloc(BUF); memset(buf, 0xA5, BUF);
@@ -71,9 +71,9 @@ int main(void) {
         CHECK(si_ < st.f3.f1, "string reference inside the string table");
         if (si_ < st.f3.f1) { PVal* e = ((PVal**)st.f3.f2)[si_]; CHECK(PV_U64(e) == 2 && PV_BYTES(e)[0] == s0[0] && PV_BYTES(e)[1] == s0[1], "the table entry has exactly the bytes of the value"); } }
     } else {
-      { uint8_t t = nx_byte(); uint64_t si_ = nx_uint(); CHECK(t == cls(s1, 1), "string class");
+      { uint8_t t = nx_byte(); uint64_t si_ = nx_uint(); CHECK(t == cls(s1, 2), "string class");
         CHECK(si_ < st.f3.f1, "string reference inside the string table");
-        if (si_ < st.f3.f1) { PVal* e = ((PVal**)st.f3.f2)[si_]; CHECK(PV_U64(e) == 1 && PV_BYTES(e)[0] == s1[0], "the table entry has exactly the bytes of the value"); } }
+        if (si_ < st.f3.f1) { PVal* e = ((PVal**)st.f3.f2)[si_]; CHECK(PV_U64(e) == 2 && PV_BYTES(e)[0] == s1[0] && PV_BYTES(e)[1] == s1[1], "the table entry has exactly the bytes of the value"); } }
 #ifdef REAL
       { double d = nx_real(); union { uint64_t u; double d; } c; c.u = r1bits; CHECK(c.d != c.d || d == c.d, "real value"); }
 #else
